@@ -119,7 +119,7 @@ def run(ctx):
            spec_violation_sig=lambda r, states: {"arg_has_slash": any(47 in a for a in (states[-1][1]["step"]["args"][2] if states else []))})
     ctx.replay(paths, replayer, nontrivial=nt)
     ctx.cov["exhaustive"] = True
-    sims = ctx.sim_paths("webstatic", "Gen_Routing", "Gen_Routing.cfg", num=ctx.pick(60, 1000), depth=9)
+    sims = ctx.sim_paths("webstatic", "Gen_Routing", "Gen_Routing.cfg", num=ctx.pick(60, 400), depth=9)
     ctx.replay(sims, replayer, label="s2c-sim")
     ctx._phase("mc+s2c", t0)
     t0 = time.time()
